@@ -11,6 +11,7 @@ the generic case: distinct leading eigenvalues), the answers for `Z` and `c² Z`
 factor matrices of the two runs coincide, the cores differ by the factor `c`, the fits are equal.
 -/
 import PyttbModel.Lemmas.TuckerRank
+import PyttbModel.Alg.PresentationRelabel
 
 set_option linter.unusedSectionVars false
 set_option linter.unusedSimpArgs false
@@ -20,9 +21,6 @@ namespace Tk
 open Finset
 
 /-! ## 1. scaling a dense tensor -/
-
-/-- `c • T` -/
-def dscale (c : ℝ) (T : Dense ℝ) : Dense ℝ := ⟨T.shape, T.data.map (c * ·)⟩
 
 @[simp] theorem dscale_shape (c : ℝ) (T : Dense ℝ) : (dscale c T).shape = T.shape := rfl
 
@@ -115,9 +113,6 @@ theorem ttmExcl_dscale (c : ℝ) (T : Dense ℝ) (Us : List (Mat ℝ)) (n : Nat)
     rw [if_pos h, if_pos h']; exact ttmDims_dscale c T Us _ tr
   · have h' : ¬ n < (dscale c T).shape.length := h
     rw [if_neg h, if_neg h']; rfl
-
-/-- a matrix with every entry multiplied by `t` -/
-def mscale (t : ℝ) (Z : Mat ℝ) : Mat ℝ := Z.map fun row => row.map (t * ·)
 
 theorem mscale_get (t : ℝ) (Z : Mat ℝ) (a b : Nat) : (mscale t Z).get a b = t * Z.get a b := by
   simp only [Mat.get, mscale, List.getD_eq_getElem?_getD, List.getElem?_map]
@@ -282,10 +277,6 @@ theorem sweep_dscale {nvecs : Nat → Dense ℝ → Nat → Nat → Mat ℝ} (hC
       | error e => rfl
       | ok core => rfl
 
-/-- an executed pass with the core and the residual scaled -/
-def scaleRec (c : ℝ) (r : IterRec ℝ) : IterRec ℝ :=
-  ⟨r.iteration, r.factors, dscale c r.core, c * r.normresidual, r.fit, r.fitchange⟩
-
 theorem npow_two (x : ℝ) : npow x 2 = x * x := by simp [npow]
 
 theorem normresidual_scale {c : ℝ} (hc : 0 < c) (nx g : ℝ) :
@@ -334,10 +325,6 @@ theorem iterate_dscale {nvecs : Nat → Dense ℝ → Nat → Nat → Mat ℝ} (
           (Gen.fit realOps (Gen.normresidual realOps normX (tnorm realOps core)) normX) calls' with
         | error e => rfl
         | ok rest => rfl
-
-/-- what `tucker_als` returns, with the core and the residual scaled -/
-def scaleOut (c : ℝ) (o : TaOut ℝ) : TaOut ℝ :=
-  ⟨⟨dscale c o.solution.core, o.solution.factors⟩, o.uinit, o.iters, c * o.normresidual, o.fit⟩
 
 /-- For `init = "nvecs"` the start itself is an answer of the service about the DATA; there (only) the
 equality of the two starts is a hypothesis (it follows from the contract by `nvecs_dscale` where the Gram
